@@ -8,7 +8,7 @@ from ..cfg import NORMAL, Node, handler_classes
 from ..core import Ctx
 from ..flow import ALL, find_path, names_in
 from ..model import AnalysisError, FunctionInfo, dotted, norm_text
-from .common import (code_branches, edge_target, fold_str, handler_exits, handler_nodes, hint_value, hint_write_nodes, hint_writers,
+from .common import (code_branches, facts_at, known_flag, edge_target, fold_str, handler_exits, handler_nodes, hint_value, hint_write_nodes, hint_writers,
                      in_handler, kwarg, path_arg, reachable_from)
 
 EXPLANATION = (
@@ -46,8 +46,34 @@ def check(ctx: Ctx) -> None:
     ctx.floors["C08.R6"] = ctx.floors.pop("C19.R4")
 
 
+def pin_needs_hint(ctx: Ctx, rid: str) -> None:
+    """Shared with C03 / C10: with NO pointer object (a creator died before the first pointer write) or an unparseable one,
+    the 'pointer moved' conflict must not fire - the commit has to go ahead as create-if-absent / recovery."""
+    ctx.rule(rid, "the 'pointer moved between validation and the ETag read' conflict is raised only when the ETag read "
+             "produced a parsed pointer (its operand is known to be non-None at the comparison)", 1)
+    if not getattr(ctx, "_c08_pins", None):
+        n0, rt, fl = len(ctx.obs), dict(ctx.rule_text), dict(ctx.floors)
+        r1(ctx)
+        del ctx.obs[n0:]
+        ctx.rule_text, ctx.floors = rt, fl
+    f = ctx.fn("metadata_manager.MetadataManager.commit")
+    sl = ctx.slicer(f)
+    pins = getattr(ctx, "_c08_pins", [])
+    if not pins:
+        ctx.ob(rid, f, "no name-pinning comparison (the validated metadata itself derives from the ETag read)", None, True, "",
+               nontrivial=False)
+    for b, side in pins:
+        names = set(names_in(side)) | {n for n in sl.origins(side, b.id)["names"] if "." not in n}
+        nonnull = {e.id for pol, e, _at in facts_at(ctx, f, b) if pol in ("nonnull", "true") and isinstance(e, ast.Name)}
+        ctx.ob(rid, f, "pinning comparison runs only on a parsed pointer", b, bool(names & nonnull),
+               f"pointer-side operand `{norm_text(side)}` derives from {sorted(names)[:6]}; known non-None here: {sorted(nonnull)[:6]}. "
+               "Comparing a missing / unparseable pointer (None) with the validated name always differs: every commit on a CAS "
+               "backend then raises ConcurrentModificationException until someone writes the pointer by hand")
+
+
 def r1(ctx: Ctx) -> None:
     ctx.rule("C08.R1", "ETag provenance: the conditional pointer write is keyed to the pointer state that was validated", 1)
+    ctx._c08_pins = []  # type: ignore[attr-defined]
     f = ctx.fn("metadata_manager.MetadataManager.commit")
     g = ctx.cfg(f)
     sl = ctx.slicer(f)
@@ -107,6 +133,7 @@ def r1(ctx: Ctx) -> None:
         if not rs or cp.id in reach or any(x.raised != "ConcurrentModificationException" for x in rs):
             continue
         cands.append(b)
+        ctx._c08_pins.append((b, b.ast.left if r.ast in lo["calls"] else b.ast.comparators[0]))  # type: ignore[attr-defined]
     if cands:
         # every path r -> cp passes a candidate, except through an edge where the parsed hint is None / a guard on
         # the validated-name being None
@@ -135,6 +162,10 @@ def r1(ctx: Ctx) -> None:
                bool(defs_from_r) and w2 is None,
                "the ETag variable handed to the commit point is (re)defined from the read's result on every path from the read",
                witness=ctx.path_witness(f, w2))
+    if r.kind == "call" and ctx.eff.storage_op(r) == "read_file_with_etag":
+        ctx.ob("C08.R1", f, "the ETag read runs on the supports_cas branch", r, known_flag(ctx, f, r, "supports_cas") is True,
+               "on a CAS backend the pointer's ETag is always read before the commit point (an inverted / dropped capability "
+               "test would send a create-if-absent PUT against an existing pointer: every commit conflicts forever)")
     ok = flows and (opt_a or opt_b)
     ctx.ob("C08.R1", f, "validated version == version whose ETag keys the conditional write", cp, ok,
            f"etag flows from the pointer read: {flows}; validated metadata depends on that read: {opt_a}; name comparison "
@@ -256,6 +287,18 @@ def r3(ctx: Ctx) -> None:
             cas_on_true = [n for n in writes if ctx.eff.storage_op(n) == "write_file_cas" and n.id in reach_t]
             ctx.ob("C08.R3", w, "supports_cas -> conditional pointer write only", b, bool(cas_on_true) and not plain_on_true,
                    "on a CAS backend even a fully broken lock cannot produce a silent lost update")
+    n_cas = 0
+    for w in hint_writers(ctx):
+        for n in hint_write_nodes(ctx, w):
+            is_cas = ctx.eff.storage_op(n) == "write_file_cas"
+            n_cas += is_cas
+            kf = known_flag(ctx, w, n, "supports_cas")
+            ctx.ob("C08.R3", w, "conditional write iff supports_cas" if is_cas else "plain pointer write only without CAS support", n,
+                   kf is (True if is_cas else False),
+                   f"supports_cas known {kf} at this pointer write: the capability test selects the conditional write on CAS backends "
+                   "and the plain write elsewhere (never constant, never inverted)")
+    ctx.ob("C08.R3", hint_writers(ctx)[0], "a conditional pointer write exists", None, n_cas >= 1, f"{n_cas} write_file_cas site(s)",
+           nontrivial=False)
     cas = ctx.fn("storage_backend.S3StorageBackend.write_file_cas")
     g = ctx.cfg(cas)
     puts = ctx.calls(cas, prim="boto.put_object")
